@@ -341,6 +341,13 @@ class Trans:
         # constant expressions
         mm=re.match(r'(getelementptr|bitcast|ptrtoint|inttoptr|trunc|zext|sext|add|sub|mul|and|or|xor|shl|lshr|ashr|select|icmp|addrspacecast)\b',tok)
         if mm: return s.constexpr(fx,t,tok)
+        if isinstance(t,StructT) and t.fields is not None and tok.startswith('{') and tok.endswith('}'):
+            # literal struct constant operand: { T0 v0, T1 v1, ... } -> C compound literal, field by field
+            parts=split_top(tok[1:-1].strip()); vals=[]
+            if len(parts)!=len(t.fields): raise Err('struct const arity %s : %s'%(tok,t.key()))
+            for pt_ in parts:
+                ft_,r_=m.ptype(pt_); vals.append(s.val(fx,ft_,r_))
+            return '((%s){%s})'%(m.ct(t),', '.join(vals))
         raise Err('val %s : %s'%(tok,t.key()))
     def zero(s,t):
         m=s.m
@@ -1021,6 +1028,8 @@ def emit(m,entries,stubs,out,protos=None,trap=None):
     for n in stubs:
         if n in m.funcs:
             f=m.funcs[n]; o.append('extern '+tr.sig(n,f.ret,[p[0] for p in f.params],None,getattr(f,'va',False))+'; /* STUB */')
+            # IRC_SIG_<name>: the full C signature (parameters a0, a1, ...) so that a harness-side model need not spell IR-numbered struct names
+            o.append('#define IRC_SIG_%s %s'%(cname(n),tr.sig(n,f.ret,[p[0] for p in f.params],['a%d'%i for i in range(len(f.params))],getattr(f,'va',False))))
     # globals: tentative declarations first (initialisers may reference each other)
     for n in order:
         if n in m.globals and done[n] is not None:
